@@ -9,6 +9,7 @@ import (
 	_ "verifharness/props/c01"
 	_ "verifharness/props/c02"
 	_ "verifharness/props/c04"
+	_ "verifharness/props/c06"
 )
 
 func main() { fw.Main() }
